@@ -97,10 +97,10 @@ PROPS["C06"] = Prop(
     "(no bound, loop-free): + - * against i128 arithmetic by SAT; / % by contract chaining "
     "(std primitive stubbed by its contract in Kani, meaning of the primitive proved in Verus lemma L-div).",
     kunits=C06_UNITS,
-    vunits=[V_LDIV, VUnit("name_bind", "name_bind", ["bind::bind_next_name", "bind::bind_name"]), VUnit("bind_next", "bind_next", ["bind::binary_operation_assign", "bind::bind_next"])],
+    vunits=[V_LDIV, VUnit("name_bind", "name_bind", ["bind::bind_next_name", "bind::bind_name"]), VUnit("bind_next", "bind_next", ["bind::binary_operation_assign", "bind::bind_next"]), VUnit("expr", "expr", ["eval::eval_expr (Range arm)"])],
     assumptions=[
         "integer literal decoding (lexer next_int, unary minus in the grammar) is not under contract",
-        "range materialisation `a .. b` ((start..end).map(new_int).collect() inside eval_expr) is not under contract",
+        "range materialisation: eval_expr's Range arm is under contract (V-expr) with `(start..end).map(new_int).collect()` replaced by its std contract (ascending integers)",
     ],
     trusted_base=COMMON_TRUST + [
         "vstd's specification of i64 `/` and `%` (truncating) matches core",
@@ -143,11 +143,11 @@ PROPS["C11"] = Prop(
     "every length and every value/error of the bound expressions (postcondition over the whole list view: accepted exactly on "
     "0 <= a < b <= len with len(ys) == b-a, omitted bounds 0 / len(xs); element-wise write; frame; unchanged on error; no overflow/OOB). "
     "Range reads and concatenation: Kani leaf contracts (bounded in sequence length, listed as bounded).",
-    vunits=[V_RANGE],
+    vunits=[V_RANGE, VUnit('expr', 'expr', ['eval::eval_expr']), VUnit('bind_next', 'bind_next', ['bind::bind_next'])],
     assumptions=["A-lock: the list cell is modelled as exclusively owned (no aliasing between the list, the right-hand side and the bound expressions' effects)",
-                 "single-index read/write (eval_expr Index arm, bind_next Index arm) are not under contract"],
+                 "single-index write: the bound check and the operator application are under contract (V-bindnext); that the write lands in the shared cell is not (A-lock)"],
     trusted_base=VERUS_TRUST + COMMON_TRUST,
-    not_covered=["xs[i] read / xs[i] = v (inside eval_expr / bind_next)", "aliasing between xs and ys"],
+    not_covered=["aliasing between xs and ys", "range reads / concatenation beyond the Kani bounds"],
 )
 
 
@@ -160,14 +160,14 @@ PROPS["C17"] = Prop(
     "EvalBuiltinFuncCallFailed is invisible to the renderer, each user-call wrapper yields exactly one stack-trace line. "
     "(2) Located-ness as an inductive postcondition `located(e)` (AtLoc, or a context wrapper of a located error) on every function "
     "of the V units: assuming callees return located errors, the function returns located errors.",
-    vunits=[V_RENDER, V_CTL, V_RANGE, VUnit('name_bind', 'name_bind', ['bind::bind_next_name', 'bind::bind_name']), VUnit('list_bind', 'list_bind', ['bind::bind_list']), VUnit('call', 'call', ['eval::eval_call']), VUnit('scoped', 'scoped', ['eval::eval_stmts', 'eval::eval_stmts_in_new_scope']), VUnit('items', 'items', ['eval::eval_list_items']), VUnit('object_bind', 'object_bind', ['bind::bind_object', 'bind::bind_object_prop']), VUnit('bind_next', 'bind_next', ['bind::bind_next', 'bind::bind', 'bind::binary_operation_assign'])],
+    vunits=[V_RENDER, V_CTL, V_RANGE, VUnit('name_bind', 'name_bind', ['bind::bind_next_name', 'bind::bind_name']), VUnit('list_bind', 'list_bind', ['bind::bind_list']), VUnit('call', 'call', ['eval::eval_call']), VUnit('scoped', 'scoped', ['eval::eval_stmts', 'eval::eval_stmts_in_new_scope']), VUnit('items', 'items', ['eval::eval_list_items']), VUnit('object_bind', 'object_bind', ['bind::bind_object', 'bind::bind_object_prop']), VUnit('bind_next', 'bind_next', ['bind::bind_next', 'bind::bind', 'bind::binary_operation_assign']), VUnit('expr', 'expr', ['eval::eval_expr'])],
     assumptions=[
         "message TEXT is not under contract (format! is opaque): 'human-readable, no internal identifier' follows from transparency + located-ness only for errors whose Display text is human-readable",
         "stdout/stderr ordering and exit status 103 (process-level, main is I/O) are not under contract",
-        "raise sites inside eval_expr, validate_args, value_to_pairs and the builtins are not in a V unit: their located-ness is an assumed callee contract",
+        "raise sites inside validate_args, value_to_pairs, the typed coercions, interpolate_string and the builtins are not in a V unit: their located-ness is an assumed callee contract",
     ],
     trusted_base=VERUS_TRUST,
-    not_covered=["message wording", "process exit status / stream ordering", "raise sites in eval_expr, validate_args, builtins"],
+    not_covered=["message wording", "process exit status / stream ordering", "raise sites in validate_args, interpolate_string, builtins"],
 )
 
 
@@ -181,14 +181,14 @@ PROPS["C20"] = Prop(
     "(`_` never binds; once per pattern; := declares in the innermost scope only and cites the earlier position on conflict; "
     "= / op= update the nearest enclosing declaration or report Undefined at the name) over an abstract scope-chain view, for all names, "
     "all chains and all values.",
-    vunits=[V_NAME, V_BINDNEXT],
+    vunits=[V_NAME, V_BINDNEXT, VUnit('expr', 'expr', ['eval::eval_expr'])],
     assumptions=[
         "ScopeStack::{declare,get,assign} are under ASSUMED contracts read off src/eval/scope.rs (HashMap + Arc<Mutex> are outside both engines)",
         "std HashSet<String> is replaced by an assumed mathematical-set contract",
         "when a scope is pushed or popped (blocks, calls, loop iterations) is not under contract here (C04 territory)",
     ],
     trusted_base=VERUS_TRUST,
-    not_covered=["non-bindable parameter rejection in validate_args", "reads of undefined names (eval_expr Var arm)",
+    not_covered=["non-bindable parameter rejection in validate_args",
                  "scope push/pop discipline", "bind_object_prop's `_` short-circuit"],
 )
 
@@ -255,4 +255,23 @@ PROPS["C03"] = Prop(
                  "next_int / next_str_literal / next_keyword_or_ident over arbitrary text are outside Kani's reach (measured)"],
     trusted_base=COMMON_TRUST,
     not_covered=["parser", "process-level behaviour (exit status, stdout empty)", "word / int / string recognisers"],
+)
+
+
+V_EXPR = VUnit("expr", "expr", ["eval::eval_expr (all 14 arms)", "value::new_* constructors"])
+
+PROPS["C12"] = Prop(
+    "C12", "proof",
+    "Unit V-expr: eval_expr copied verbatim and verified against the relational specification `ev`: object literals (entries in source order, "
+    "computed names must be strings, `{a}` shorthand, `x..` spread, later entry wins), `o.k` and `o[\"k\"]` read the same property and remember o "
+    "as the source, a missing property is an error. Unit V-bindnext: `o[k] = v` / `o.k = v` / op-assign update the existing entry or insert a new key "
+    "(and op-assign on a missing key is an error) - the operation performed on the locked cell; both write paths follow the same rule.",
+    vunits=[V_EXPR, V_BINDNEXT],
+    assumptions=[
+        "std BTreeMap<String, SourcedValue> is replaced by an ASSUMED finite-map contract (new/get/get_mut/insert/len); ascending-key iteration order "
+        "(for / print) is a property of std BTreeMap and of value_to_pairs / render, not under contract here",
+        "A-lock: object cells are modelled as exclusively owned; that a write through one alias is visible through another is NOT claimed (C05)",
+    ],
+    trusted_base=VERUS_TRUST,
+    not_covered=["iteration / printing order", "aliasing", "== between objects (C10)"],
 )
